@@ -20,6 +20,7 @@ int lbuf_undo(struct lbuf *lbuf);
 int lbuf_redo(struct lbuf *lbuf);
 int lbuf_modified(struct lbuf *lb);
 void lbuf_saved(struct lbuf *lb, int clear);
+void lbuf_unsaved(struct lbuf *lb);
 int lbuf_indents(struct lbuf *lb, int r);
 int lbuf_eol(struct lbuf *lb, int r);
 void lbuf_globset(struct lbuf *lb, int pos, int dep);
